@@ -42,13 +42,14 @@ def encode(spec):
     fmt, rate, order = spec["fmt"], spec["rate"], spec["order"]
     s = samples(spec)
     band = spec.get("band", "BH")
+    bands = spec.get("bands") or {c: band for c in COMPS}       # per-component band codes (e.g. EHZ with HHN/HHE)
     stem = "r%d" % spec.get("idx", 0)
     exp = {"dt": 1.0 / rate, "deg": 0.0}
     with warnings.catch_warnings():
         warnings.simplefilter("ignore")
         if fmt in ("mseed1", "mseed3"):
             data = {c: s[c].astype(np.int32) for c in COMPS}
-            trs = [_trace(band + c, data[c], rate, spec) for c in order]
+            trs = [_trace(bands[c] + c, data[c], rate, spec) for c in order]
             if fmt == "mseed1":
                 from obspy import Stream
                 b = io.BytesIO()
@@ -66,14 +67,14 @@ def encode(spec):
             files = []
             for c in order:
                 b = io.BytesIO()
-                _trace(band + c, data[c], rate, spec).write(b, format="SAC", byteorder="<" if fmt == "sac_le" else ">")
+                _trace(bands[c] + c, data[c], rate, spec).write(b, format="SAC", byteorder="<" if fmt == "sac_le" else ">")
                 files.append((stem + "_" + c.lower() + ".sac", b.getvalue()))
             exp.update(ns=data["N"].astype(float), ew=data["E"].astype(float), vt=data["Z"].astype(float))
             exp["dt"] = None              # SAC stores delta in single precision: judged against the file's own header
         elif fmt == "gcf":
             from obspy import Stream
             data = {c: s[c].astype(np.int32) for c in COMPS}
-            trs = [_trace(band + c, data[c], rate, spec) for c in order]
+            trs = [_trace(bands[c] + c, data[c], rate, spec) for c in order]
             d = tempfile.mkdtemp(prefix="hvsrpy-verif-gcf-")
             p = os.path.join(d, "x.gcf")
             try:
